@@ -57,6 +57,13 @@ RECURSIVE WidthAfter(_, _, _)
 WidthAfter(w, layers, k) == IF k > Len(layers) THEN w
                             ELSE WidthAfter(w - NIn(layers[k].g) + NOut(layers[k].g), layers, k + 1)
 Cod(c) == WidthAfter(c.dom, c.layers, 1)
+\* rewire(op, a, b) on n qubits: the two-qubit map op acting on qubits a (its first wire) and b
+\* (its second wire), identity elsewhere
+RewireT(Op, a, b, n) ==
+  T(Q(n), Q(n), LAMBDA r, cc :
+      LET x == Digits(r, Q(n)) y == Digits(cc, Q(n)) IN
+      IF \E k \in 1..n : k # a + 1 /\ k # b + 1 /\ x[k] # y[k] THEN RZero
+      ELSE Op.a[(2 * x[a + 1] + x[b + 1]) * 4 + (2 * y[a + 1] + y[b + 1]) + 1])
 \* the dagger of a circuit, gate by gate (the mathematical rule: conjugate transpose)
 DagGate(g) == IF g.k = "Ket" THEN [g EXCEPT !.k = "Bra"] ELSE IF g.k = "Bra" THEN [g EXCEPT !.k = "Ket"]
               ELSE [g EXCEPT !.dg = 1 - g.dg]
